@@ -82,7 +82,8 @@ Monitors(r, prev) ==
       expOff == IF vl < Len(w) THEN r.lex[vl + 1][1] ELSE Len(r.bytes)
       \* scope of the offset part: a reduced grammar (with an unproductive symbol no
       \* token "continues a sentence", which is the compiler's C16 concern, not the parser's)
-      c12 == IF r.res.k # "err" \/ r.partial \/ ~nodis \/ ~Reduced(T, C.P) THEN {}
+      \* (a user lexer that ignores the expected tokens: C15 only demands an error result)
+      c12 == IF r.res.k # "err" \/ r.partial \/ ~nodis \/ ~Reduced(T, C.P) \/ r.meta.anylex THEN {}
              ELSE (IF r.res.o = expOff THEN {} ELSE {<<"error_offset", r.res.o, expOff>>})
                   \cup (IF PosOK(r.bytes, r.res.o, r.res.l, r.res.c) THEN {}
                         ELSE {<<"error_linecol", r.res.o, r.res.l, r.res.c>>})
